@@ -76,16 +76,16 @@ def run(rep, tier, seed):
     rep.need_witness('c06_idle_stop', 'c06_forced_stop', 'c06_graceful_true', 'c06_graceful_timeout', 'c06_graceful_waiting')
     q = tier == 'quick'
     acts = ('conn', 'finish', 'stop', 'tick')
-    runs = [('S1', dict(S=1, steps=5 if q else 7, env_per_step=2, max_conns=2 if q else 3, pend_budget=1, err_budget=0, restart_pend_budget=0, actions=acts, checks=(chk_c06, chk_c07)))]
+    runs = [('S1', dict(S=1, steps=5 if q else 6, env_per_step=2, max_conns=2 if q else 3, pend_budget=1, err_budget=0, restart_pend_budget=0, actions=acts, checks=(chk_c06, chk_c07)))]
     if not q:
-        runs.append(('S2-two-stops', dict(S=2, steps=5, env_per_step=2, max_conns=3, max_stops=2, pend_budget=1, err_budget=1, actions=acts, checks=(chk_c06, chk_c07))))
+        runs.append(('S2-two-stops', dict(S=2, steps=4, env_per_step=2, max_conns=2, max_stops=2, pend_budget=1, err_budget=1, actions=acts, checks=(chk_c06, chk_c07))))
     # the accept thread returns when it processes Stop and drops every connection sender: `close` at any point
-    runs.append(('S1-accept-exit', dict(S=1, steps=4 if q else 6, env_per_step=2, max_conns=2, pend_budget=1, err_budget=0, restart_pend_budget=0,
+    runs.append(('S1-accept-exit', dict(S=1, steps=4 if q else 5, env_per_step=2, max_conns=2, pend_budget=1, err_budget=0, restart_pend_budget=0,
                                         actions=('conn', 'finish', 'stop', 'close'), checks=(chk_c06, chk_c06_exit))))
     rep.need_witness('c06_exit_without_stop')
     run_worker_property(rep, 'C06', runs, tier, seed, keep=('C06/',))
     # accept side: Stop in every order with pause/resume/connects
-    aruns = [('accept-stop', dict(W=1, L=2, uds=True, limit=2, turns=4 if q else 6, env_per_turn=2, max_conns=2, track_count=True,
+    aruns = [('accept-stop', dict(W=1, L=2, uds=True, limit=2, turns=4 if q else 5, env_per_turn=2, max_conns=2, track_count=True,
                                   actions=('connect', 'finish', 'pause', 'resume', 'stop'), checks=(chk_stop,)))]
     rep.need_witness('loop_returned_on_stop', 'c06_count_checked_at_send')
     ctx = srvchecks.run_accept_property(rep, 'C06', aruns, tier, seed, also=('accept_loop',))
